@@ -72,7 +72,11 @@ func (w *Writer) Write(data []byte) (n int, err error) {
 		return n, w.err
 	}
 	if w.w != nil {
-		return w.w.Write(data)
+		n, err = w.w.Write(data)
+		if err != nil {
+			w.err = err
+		}
+		return n, err
 	}
 	n = len(data)
 	var num int
@@ -104,9 +108,15 @@ func (w *Writer) Flush() (err error) {
 		return w.err
 	}
 	if w.w != nil {
-		return w.w.Flush()
+		err = w.w.Flush()
+	} else {
+		err = w.lc.Flush()
 	}
-	return w.lc.Flush()
+	if err != nil {
+		// as in Write: a failed destination is not written to again until Reset
+		w.err = err
+	}
+	return err
 }
 
 func (w *Writer) Close() (err error) {
@@ -114,7 +124,12 @@ func (w *Writer) Close() (err error) {
 		return w.err
 	}
 	if w.w != nil {
-		return w.w.Close()
+		err = w.w.Close()
+	} else {
+		err = w.lc.Close()
 	}
-	return w.lc.Close()
+	if err != nil {
+		w.err = err
+	}
+	return err
 }
